@@ -41,6 +41,23 @@ namespace {
 
 const bool no_exclude = std::getenv("VERIF_NO_EXCLUDE") != nullptr;
 
+//! switches STIR's assert()s off (= what a Release build executes) for a scope
+struct AssertsOff
+{
+  bool active;
+  explicit AssertsOff(bool a)
+      : active(a)
+  {
+    if (active)
+      stir_verif::asserts_on = false;
+  }
+  ~AssertsOff()
+  {
+    if (active)
+      stir_verif::asserts_on = true;
+  }
+};
+
 // =================================================================================================
 //                                             SSRB
 // =================================================================================================
@@ -163,20 +180,6 @@ check_ssrb(const json& c)
   // build with assertions, while a Release build does the right thing (grow() ends in resize()).  To keep searching
   // behind it the assertions are switched off (= Release behaviour) around that one call, for ntof>1 only.
   const bool asserts_off_for_tof = ntof > 1 && !no_exclude;
-  struct AssertsOff
-  {
-    bool active;
-    explicit AssertsOff(bool a) : active(a)
-    {
-      if (active)
-        stir_verif::asserts_on = false;
-    }
-    ~AssertsOff()
-    {
-      if (active)
-        stir_verif::asserts_on = true;
-    }
-  };
   try
     {
       AssertsOff guard(asserts_off_for_tof);
@@ -1043,6 +1046,11 @@ gen_ssrb(Src& s, int size)
     trim = s.chance(1, 3) ? -int(s.range(1, 4)) : int(s.range(1, std::max(1, std::min(tang - 1, 6))));
   if (trim >= tang)
     trim = 0;
+  // the class invariant of ProjDataInfoCylindricalNoArcCorr (constructor, .cxx:66: error() when the number of tangential
+  // positions exceeds the scanner's max_num_non_arccorrected_bins) also bounds what may be added with a negative trim:
+  // SSRB itself does not test it, but the file it writes cannot be read back otherwise (observation O2 in the notes)
+  if (tang - trim > max_tang)
+    trim = no_exclude ? trim : tang - max_tang;
   c["trim"] = trim;
   c["n_events"] = s.pick(std::vector<long>{ 1, 5, 40, 300, 300, 2000, 2000 });
   c["events_seed"] = s.seed64();
@@ -1166,7 +1174,27 @@ Result
 check(const json& c)
 {
   vg::quiet();
-  return c["part"].get<std::string>() == "ssrb" ? check_ssrb(c) : check_zoom(c);
+  if (c["part"].get<std::string>() == "ssrb")
+    return check_ssrb(c);
+  try
+    {
+      return check_zoom(c);
+    }
+  catch (const stir_verif::AssertionFailure& e)
+    {
+      // Finding 4 (work/notes/C15_findings.md): the four range assertions on diff_between_right_edges in
+      // overlap_interpolate.cxx (lines 148,149,251,252) carry the comment "+/-epsilon" but test without one; they fire
+      // on rounding noise of 1e-16.  A Release build computes the right result, so the case is re-run with the
+      // assertions off (all oracles still apply).  VERIF_NO_EXCLUDE=1 reports the assertion instead.
+      const std::string what = e.what();
+      const bool epsilon_assert = what.find("diff_between_right_edges") != std::string::npos && what.find("overlap_interpolate.cxx") != std::string::npos;
+      if (no_exclude || !epsilon_assert)
+        throw;
+      stats().cls("zoom: epsilon-less assertion of overlap_interpolate fired, re-run with assertions off (finding 4)");
+      ++stats().excluded_known;
+      AssertsOff guard(true);
+      return check_zoom(c);
+    }
 }
 
 bool
